@@ -29,12 +29,14 @@ static ITER: AtomicUsize = AtomicUsize::new(0);
 
 struct Ev {
     ready: AtomicBool,
+    /// the future / stream built on this event has observed it (returned Ready / Some)
+    consumed: AtomicBool,
     slot: Mutex<Option<Waker>>,
 }
 
 impl Ev {
     fn new() -> Arc<Ev> {
-        Arc::new(Ev { ready: AtomicBool::new(false), slot: Mutex::new(None) })
+        Arc::new(Ev { ready: AtomicBool::new(false), consumed: AtomicBool::new(false), slot: Mutex::new(None) })
     }
     /// run by an event thread
     fn fire(&self, wake_locked: bool) {
@@ -73,6 +75,7 @@ impl Future for EvFut {
     type Output = usize;
     fn poll(self: Pin<&mut Self>, cx: &mut Context<'_>) -> Poll<usize> {
         if self.ev.register(cx) {
+            self.ev.consumed.store(true, Ordering::SeqCst);
             Poll::Ready(self.val)
         } else {
             Poll::Pending
@@ -386,6 +389,118 @@ fn scenario(name: &str, o: Opt) {
             }
             join_all(hs);
         }
+        "join_vec3_never" => {
+            // three children, one of which never fires: its readiness bit history must not mask the others
+            let (e, hs) = events(2, o);
+            let never = Ev::new();
+            let j = vec![fut(&e[0], 10), fut(&never, 12), fut(&e[1], 11)].join();
+            let mut j = std::pin::pin!(j);
+            // the join can never resolve; drive it until both live children have been polled to completion
+            // (if a wake-up is lost the executor parks forever and loom reports the deadlock)
+            let e0 = e[0].clone();
+            let e1 = e[1].clone();
+            d.drive(|cx| {
+                let r = j.as_mut().poll(cx);
+                assert!(r.is_pending());
+                if e0.consumed.load(Ordering::SeqCst) && e1.consumed.load(Ordering::SeqCst) {
+                    Poll::Ready(())
+                } else {
+                    Poll::Pending
+                }
+            });
+            join_all(hs);
+        }
+        "merge_vec3_never" => {
+            let (e, hs) = events(2, o);
+            let never = Ev::new();
+            let m = vec![strm(&e[0], 10), strm(&never, 12), strm(&e[1], 11)].merge();
+            let mut m = std::pin::pin!(m);
+            let mut got = 0;
+            while got < 2 {
+                if d.drive(|cx| m.as_mut().poll_next(cx)).is_some() {
+                    got += 1;
+                }
+            }
+            join_all(hs);
+        }
+        "future_group_remove" => {
+            // a member is removed by the owner while its waker fires on another thread
+            let (e, hs) = events(2, o);
+            let mut g = FutureGroup::new();
+            let k0 = g.insert(fut(&e[0], 10));
+            g.insert(fut(&e[1], 11));
+            let mut g = std::pin::pin!(g);
+            let mut removed = false;
+            loop {
+                let mut first_pending = false;
+                let r = {
+                    let gg = &mut g;
+                    let fp = &mut first_pending;
+                    let rem = removed;
+                    d.drive(|cx| match gg.as_mut().poll_next(cx) {
+                        Poll::Pending if !rem => {
+                            *fp = true;
+                            Poll::Ready(None)
+                        }
+                        other => other,
+                    })
+                };
+                if first_pending {
+                    g.as_mut().get_mut().remove(k0);
+                    removed = true;
+                    continue;
+                }
+                if r.is_none() {
+                    break;
+                }
+            }
+            join_all(hs);
+        }
+        "stream_group_insert" => {
+            let (e, hs) = events(2, o);
+            let mut g = StreamGroup::new();
+            g.insert(strm(&e[0], 10));
+            g.insert(strm(&e[1], 11));
+            let mut g = std::pin::pin!(g);
+            let mut inserted = false;
+            loop {
+                let mut first_pending = false;
+                let r = {
+                    let gg = &mut g;
+                    let fp = &mut first_pending;
+                    let ins = inserted;
+                    d.drive(|cx| match gg.as_mut().poll_next(cx) {
+                        Poll::Pending if !ins => {
+                            *fp = true;
+                            Poll::Ready(None)
+                        }
+                        other => other,
+                    })
+                };
+                if first_pending {
+                    let e2 = Ev::new();
+                    e2.ready.store(true, Ordering::SeqCst);
+                    g.as_mut().get_mut().insert(strm(&e2, 12));
+                    inserted = true;
+                    continue;
+                }
+                if r.is_none() {
+                    break;
+                }
+            }
+            join_all(hs);
+        }
+        "group_nested_join" => {
+            // a FutureGroup member that is itself a join: inner and outer readiness mutexes
+            let (e, hs) = events(2, o);
+            let ready = Ev::new();
+            ready.ready.store(true, Ordering::SeqCst);
+            let mut g = FutureGroup::new();
+            g.insert(vec![fut(&e[0], 10), fut(&ready, 12)].join());
+            g.insert(vec![fut(&e[1], 11)].join());
+            let _ = d.collect(g);
+            join_all(hs);
+        }
         other => panic!("unknown scenario {}", other),
     }
 }
@@ -393,7 +508,7 @@ fn scenario(name: &str, o: Opt) {
 pub const SCENARIOS: &[&str] = &[
     "join_vec", "join_array", "join_tuple", "try_join_vec", "try_join_array", "try_join_tuple", "merge_vec", "merge_array", "merge_tuple",
     "zip_vec", "zip_array", "zip_tuple", "future_group", "stream_group", "nested_join_join", "nested_merge_merge", "nested_zip_merge",
-    "stale_after_done", "drop_midway",
+    "stale_after_done", "drop_midway", "join_vec3_never", "merge_vec3_never", "future_group_remove", "stream_group_insert", "group_nested_join",
 ];
 
 fn main() {
